@@ -30,6 +30,7 @@ typedef int(declen_fn)(const struct aws_byte_cursor *, size_t *);
     int p##aws_utf8_decoder_update(struct aws_utf8_decoder *, struct aws_byte_cursor);                                 \
     int p##aws_utf8_decoder_finalize(struct aws_utf8_decoder *);
 DECL(portable_)
+DECL(noext_)
 bool aws_common_private_has_avx2(void);
 
 struct build {
@@ -61,7 +62,9 @@ struct build {
      p##aws_utf8_decoder_reset,                                                                                        \
      p##aws_utf8_decoder_update,                                                                                       \
      p##aws_utf8_decoder_finalize}
-static const struct build s_builds[2] = {BUILD("portable", portable_), BUILD("vector", )};
+/* builds 0 and 1 run every op; build 2 (the AVX2 file compiled without _mm256_extract_epi64, harness/codec_avx2_noext.c)
+ * runs the base64 encode / decode ops */
+static const struct build s_builds[3] = {BUILD("portable", portable_), BUILD("vector", ), BUILD("vector-noext", noext_)};
 
 /* ---- allocator whose fresh memory carries the current canary (for the dynamic buffer) ---- */
 static uint8_t s_canary;
@@ -180,8 +183,9 @@ static void s_put_w(const struct res *r) {
 /* append: the call appends at outlen (reported region [outlen,len)); otherwise it reports [0,len) */
 static void s_run_out(const char *op, int which, const uint8_t *in, size_t inlen, size_t outlen, size_t cap, bool append,
                       bool dyn) {
-    struct res r[2];
-    for (int b = 0; b < 2; ++b) {
+    struct res r[3];
+    int nb = which <= 1 ? 3 : 2;
+    for (int b = 0; b < nb; ++b) {
         const struct build *B = &s_builds[b];
         codec_fn *fn = which == 0   ? B->b64_enc
                        : which == 1 ? B->b64_dec
@@ -214,10 +218,14 @@ static void s_run_out(const char *op, int which, const uint8_t *in, size_t inlen
             }
         }
     }
-    bool same = r[0].rc == r[1].rc && !strcmp(r[0].err, r[1].err) && r[0].len == r[1].len;
-    if (same && r[0].rc == AWS_OP_SUCCESS) {
-        same = r[0].lo == r[1].lo && r[0].hi == r[1].hi && r[0].cnt == r[1].cnt && r[0].cap == r[1].cap &&
-               (r[0].cap == 0 || !memcmp(r[0].bytes, r[1].bytes, r[0].cap));
+    bool same = true;
+    for (int b = 1; b < nb; ++b) {
+        bool s1 = r[0].rc == r[b].rc && !strcmp(r[0].err, r[b].err) && r[0].len == r[b].len;
+        if (s1 && r[0].rc == AWS_OP_SUCCESS) {
+            s1 = r[0].lo == r[b].lo && r[0].hi == r[b].hi && r[0].cnt == r[b].cnt && r[0].cap == r[b].cap &&
+                 (r[0].cap == 0 || !memcmp(r[0].bytes, r[b].bytes, r[0].cap));
+        }
+        same = same && s1;
     }
     printf("P %s same=%d\n", op, same);
     if (dyn) {
@@ -225,8 +233,9 @@ static void s_run_out(const char *op, int which, const uint8_t *in, size_t inlen
             printf("W %s %s cap=%zu\n", op, s_builds[b].name, r[b].cap);
         }
     }
-    free(r[0].bytes);
-    free(r[1].bytes);
+    for (int b = 0; b < nb; ++b) {
+        free(r[b].bytes);
+    }
 }
 
 static void s_run_len(const char *op, int which, size_t n, const uint8_t *in, size_t inlen) {
